@@ -57,7 +57,7 @@ def native_replay(snap, g: Group, inputs, workdir):
     defs = ["-D%s=%s" % (k, v) if v is not None else "-D%s" % k for k, v in g.defines.items()]
     exe = os.path.join(workdir, "replay.bin")
     cmd = (["gcc", "-std=gnu11", "-w", "-g", "-O1", "-fsanitize=address,undefined", "-fno-sanitize-recover=undefined", "-fno-omit-frame-pointer",
-            "-DVP_NATIVE", "-DHAVE_CONFIG_H", "-DM4RI_VERIF", "-msse2",
+            "-DVP_NATIVE", "-DHAVE_CONFIG_H", "-msse2",
             "-D__CPROVER_assigns(...)=", "-D__CPROVER_loop_invariant(...)=", "-D__CPROVER_decreases(...)=", "-D__CPROVER_assert(...)=((void)0)",
             "-I" + d, "-I" + os.path.join(d, "m4ri"), "-I" + os.path.join(VERIF, "contracts"), "-I" + os.path.join(VERIF, "harness"),
             "-I" + os.path.join(VERIF, "stubs")]
